@@ -60,6 +60,9 @@ pub struct ItemReq {
     /// R32: type ascriptions for the k-th collector (`let mut __vx_out: T`), where inference needs them before the loop
     #[serde(default)]
     pub collect_types: Vec<String>,
+    /// R35: type ascriptions for the k-th search accumulator (`let mut __vx_res: T`) of a `max_by_key`
+    #[serde(default)]
+    pub search_types: Vec<String>,
     /// cargo features that are off in the shipped configuration: statements gated on them are dropped (R2)
     #[serde(default)]
     pub off_features: Vec<String>,
